@@ -272,7 +272,7 @@ def absolute_box_layout(context, box, containing_block, fixed_boxes,
 
 
 def absolute_replaced(context, box, cb_x, cb_y, cb_width, cb_height):
-    inline_replaced_box_width_height(box, (cb_x, cb_y, cb_width, cb_height))
+    inline_replaced_box_width_height(box, (cb_width, cb_height))
     ltr = (
         box.style.parent_style is None or
         box.style.parent_style['direction'] == 'ltr')
